@@ -14,7 +14,7 @@ import time
 from concurrent.futures import ThreadPoolExecutor
 
 VERIF = os.path.dirname(os.path.dirname(os.path.abspath(__file__)))
-BUILD = os.path.join(VERIF, ".build")
+BUILD = os.environ.get("VERIF_BUILD") or os.path.join(VERIF, ".build")
 GUARD_CFG = "--cfg rustaudio_dasp_verif"
 
 
@@ -77,8 +77,33 @@ def clean_harness_builds(crate, profile, pkg):
     shutil.rmtree(root, ignore_errors=True)
 
 
-def codegen(crate, profile, features, pkg, timeout=1800):
-    """Compile all harnesses of the selected features; return (ok, harness metadata list, output)."""
+def _list_cache_key(crate, profile, features):
+    import hashlib
+    h = hashlib.sha256()
+    h.update(("%s|%s|%s" % (crate, profile, ",".join(features))).encode())
+    roots = [os.path.join(crate_dir("harness"), "src"), os.path.join(crate_dir(crate), "Cargo.toml")]
+    for root in roots:
+        if os.path.isdir(root):
+            for dp, dn, fns in sorted(os.walk(root)):
+                for fn in sorted(fns):
+                    fp = os.path.join(dp, fn)
+                    h.update(fp.encode())
+                    with open(fp, "rb") as f:
+                        h.update(f.read())
+        else:
+            with open(root, "rb") as f:
+                h.update(f.read())
+    return h.hexdigest()[:24]
+
+
+def codegen(crate, profile, features, pkg, timeout=1800, use_cache=True):
+    """Compile all harnesses of the selected features; return (ok, harness metadata list, output).
+    The harness *list* depends only on the harness crate's own sources, so it is cached; the code
+    under /repo is (re)compiled by every verification run regardless."""
+    cache = os.path.join(BUILD, "cache", "list-%s.json" % _list_cache_key(crate, profile, features))
+    if use_cache and os.path.exists(cache):
+        with open(cache) as f:
+            return True, json.load(f), "(harness list from cache)", 0.0
     clean_harness_builds(crate, profile, pkg)
     cmd = ["cargo", "kani", "--target-dir", target_dir(crate, profile), "--only-codegen"]
     if features:
@@ -106,6 +131,10 @@ def codegen(crate, profile, features, pkg, timeout=1800):
                 "unwind": h["attributes"].get("unwind_value"),
                 "stubs": ["%s -> %s" % (s.get("original"), s.get("replacement")) for s in h["attributes"].get("stubs", [])],
             })
+    if harnesses:
+        os.makedirs(os.path.dirname(cache), exist_ok=True)
+        with open(cache, "w") as f:
+            json.dump(harnesses, f)
     return True, harnesses, out, wall
 
 
@@ -166,7 +195,7 @@ def run_harness(h, tier_timeout):
         cmd += ["--features", ",".join(h["features"])]
     cmd += ["--exact", "--harness", h["name"]] + list(h.get("flags", []))
     timeout = h.get("timeout") or tier_timeout
-    log = os.path.join(BUILD, "logs", h["prop"], "%s-%s.log" % (h["name"].replace("::", "."), h["profile"]))
+    log = os.path.join(BUILD, "logs", h["prop"], "%s-%s%s.log" % (h["name"].replace("::", "."), h["profile"], h.get("log_suffix", "")))
     rc, out, wall, to = run_cmd(cmd, crate_dir(h["crate"]), base_env(h["profile"]), timeout,
                                 mem_gb=h.get("mem_gb", 24), log=log)
     r = parse_output(out)
@@ -201,6 +230,7 @@ def run_group(hs, jobs, tier_timeout, progress=None):
     log = os.path.join(BUILD, "logs", h0["prop"], "group-%s-%s-%s-%d.log" % (crate, profile, gtag, timeout))
     rc, out, wall, to = run_cmd(cmd, crate_dir(crate), base_env(profile), overall, mem_gb=h0.get("mem_gb", 24), log=log)
     res = []
+    build_failed = (rc != 0 and not os.path.isdir(resdir)) or bool(re.search(r"^error(\[E\d+\])?:", out, re.M) and not os.path.isdir(resdir))
     for h in hs:
         f = os.path.join(resdir, h["name"])
         hl = os.path.join(BUILD, "logs", h["prop"], "%s-%s.log" % (h["name"].replace("::", "."), profile))
@@ -222,6 +252,7 @@ def run_group(hs, jobs, tier_timeout, progress=None):
         if not hout and not to:
             r["oom"] = r["oom"] or bool(re.search(r"out of memory|bad_alloc|Killed", out))
             r["group_tail"] = out[-1500:]
+            r["build_failed"] = build_failed
         if progress:
             progress(r)
         res.append(r)
